@@ -109,8 +109,46 @@ Fixpoint walk_sync (l : store) (sk : list ev) (inloop : option (list ev))
       end
   end.
 
+(* A behaviour-preserving way of writing the three merges: ONE loop over the
+   literal tuple of the three (local map, shared map) pairs around ONE inner
+   loop - in the skeleton: the three shared maps read once (the tuple), then
+   a loop nest around a single add_to_store call.  [sync_norm] rewrites that
+   into the three loops it stands for; everything else is left alone. *)
+Definition is_rev_map (c : string) : bool :=
+  String.eqb c "value_store" || String.eqb c "tag_store"
+  || String.eqb c "sequence_id_store".
+
+Definition three_maps (a b c : string) : bool :=
+  is_rev_map a && is_rev_map b && is_rev_map c
+  && negb (String.eqb a b) && negb (String.eqb a c) && negb (String.eqb b c).
+
+Definition sync_rel2 (e : ev) : bool :=
+  sync_relevant e || match e with Rd c => is_rev_map c | _ => false end.
+
+Fixpoint sync_norm (fuel : nat) (sk : list ev) : list ev :=
+  match fuel with
+  | O => sk
+  | S n =>
+      match sk with
+      | Rd a :: Rd b :: Rd c :: LoopB :: LoopB :: Call f :: LoopE :: LoopE :: r =>
+          if three_maps a b c && String.eqb f "add_to_store"
+          then [LoopB; Call f; LoopE; LoopB; Call f; LoopE; LoopB; Call f; LoopE]
+               ++ sync_norm n r
+          else Rd a :: sync_norm n (Rd b :: Rd c :: LoopB :: LoopB :: Call f
+                                       :: LoopE :: LoopE :: r)
+      | e :: r => e :: sync_norm n r
+      | [] => []
+      end
+  end.
+
+(* what the model looks at: lock operations, writes, calls and loops of
+   sync, after that normalisation *)
+Definition sync_view (sk : list ev) : list ev :=
+  filter sync_relevant
+         (sync_norm (length sk) (filter sync_rel2 sk)).
+
 Definition expand_sync (sk : list ev) (l : store) : list act :=
-  walk_sync l sk None 0.
+  walk_sync l (sync_view sk) None 0.
 
 (* ---------------------------------------------------------------- tasks *)
 Inductive ctl :=
@@ -351,7 +389,7 @@ Definition canon_sync : list ev :=
 
 (* sync: one critical section around the four loops *)
 Definition well_locked_sync (sk : list ev) : bool :=
-  evs_eqb (filter sync_relevant sk) canon_sync.
+  evs_eqb (sync_view sk) canon_sync.
 
 (* the skeleton with its lock operations removed (refutation) *)
 Definition unlock (sk : list ev) : list ev :=
